@@ -15,7 +15,9 @@ RULE = ("(layout) per PDU class (v0/v1/v2, Rx/Tx) a value dict drawn over the fi
         "send reserved bits as zero and ignore them on receipt, and reject every other version nibble; (differential) every "
         "valid v0/v1 message generated as for C01 and encoded by data_msg (legacy padding on/off) must be accepted by the "
         "matching definition with equal ver/tn/fn/pwr|rssi/toa256, v1 MTS bits and C/I, identical burst octets, and the legacy "
-        "padding landing in 'pad'. Non-trivial: EDGE-length, batched, legacy-padded or NOPE case.")
+        "padding landing in 'pad'; a sixth of the v2 parts are all-minimum (every octet zero) and a sixth all-maximum; pdu_sequences / "
+        "pdu_object_life: several PDUs in a row, and ONE PDU object encoded again after in-place changes (top level, inside a batched sub-PDU, "
+        "sub-PDU list grown / shrunk) or after decoding another datagram - always the layout of the current content. Non-trivial: EDGE-length, batched, legacy-padded or NOPE case.")
 LEVEL = "exploration"
 ASSUMPTIONS = ["modulation codes the documentation leaves undefined (0b0111, 0b111x) are not asserted either way",
                "Tx definitions have no padding field: for legacy-padded Tx datagrams only acceptance and the burst prefix are asserted"]
